@@ -238,6 +238,16 @@ CLAIMS = {
             "Three genuine defects repaired, one residual window recorded.",
             "Process kill only (no power-loss reordering); a kill inside the third-party unarchiver is emulated by truncating the unpacked files.",
             "TLA+ spec + TLC model checking of every kill position + exhaustive fault injection on the real binary at the matching crash points", "DESIGN.md 6/C27"),
+    "C26": ("model_checking",
+            "PluginWire.tla: (i) message universes (all values of U, all types of TU, schemas with every time-field position, records, watermarks, variable contexts to depth 3) "
+            "with Decode(Encode(x)) = x, exported by TLC and sent through the real protobuf encoding/decoding (export shim, build tag verif); (ii) every function overload on the "
+            "C12/C13 catalogues crosses the real predicate transport (JSON + RepopulatePhysicalExpressionFunctions) and must evaluate as before; (iii) the Run stream state machine "
+            "(FIFO, server failure, early stop) is model-checked (prefix, end, termination) and scripts of records / retractions / watermarks / failure are served by a test plugin "
+            "(separate process on the real plugins.Run, reached through executor.PluginExecutor over gRPC) and compared with what the client callbacks receive; (iv) TLC-generated "
+            "queries of Relational.tla run through the binary against the plugin with pushdown accepted / rejected, plus queries with subquery predicates compared with the native run. "
+            "One genuine defect (overload re-resolution: IN / NOT IN inverted) repaired.",
+            "The test plugin is harness code (it evaluates pushed predicates with the real evaluator). Times compared by instant.",
+            "TLA+ spec + TLC-exported universes and TLC model checking of the stream machine + replay through the real wire encoding, transport and gRPC path", "DESIGN.md 6/C26"),
 }
 
 NA_DEFAULT = "check not built yet (work in progress; will be claimed once its TLA+ spec and conformance harness are committed)"
